@@ -430,6 +430,8 @@ def cfg(maxnnz, uops, bops, allpairs) -> str:
 def main(tier: str) -> int:
     tconst = "CONSTANTS\n StrictOps = {" + ", ".join(f'"{x}"' for x in STRICT) + "}\n"
     if core.replay_arg():
+        if json.loads(open(core.replay_arg()).read())["stimulus"].get("big"):
+            return core.replay_file(core.replay_arg(), PROP, "c03b", "Elementwise_Big_Trace")
         return core.replay_file(core.replay_arg(), PROP, "c06", "SparseOrder_Trace", trace_constants=tconst)
     out = Outcome(PROP, tier)
     import bind  # noqa
@@ -456,6 +458,15 @@ def main(tier: str) -> int:
     out.notes["stimuli"] = len(stimuli)
     out.notes["operations"] = {"unary": unames, "binary": bnames, "strict": STRICT}
     out.notes["stimuli_per_op"] = dict(Counter(s["op"] for s in stimuli))
+    # operands with more than 2048 stored entries (Elementwise_Big, shared with C03): the pairing of stored entries and the
+    # well-formedness of the result may not depend on how many entries there are (block-wise row matching)
+    ops_big = ["mul", "eq", "and"] if tier == "quick" else ["add", "sub", "mul", "eq", "ne", "le", "gt", "and", "or", "xor"]
+    rbig = tla.run_tlc("Elementwise_Big_Gen", "SPECIFICATION Spec\nCONSTANTS\n NCells = 2496\n OpsC = {%s}\n" % ", ".join(f'"{o}"' for o in ops_big),
+                       timeout=3000)
+    out.add_tlc(rbig)
+    out.notes["large_operand_calls"] = len(rbig.json)
+    core.pipeline(out, "c03b", rbig.json, "Elementwise_Big_Trace", lock_mode="superset", chunk=6,
+                  site_of=lambda tr, k: f"sptensor:{tr['ev'][k - 1]['args']['op']}({tr['ev'][k - 1]['args']['rk']}) [large]")
     core.pipeline(out, "c06", behaviours, "SparseOrder_Trace", lock_mode="superset", chunk=250,
                   trace_constants=tconst,
                   site_of=lambda tr, k: "sptensor:" + tr["ev"][k - 1]["op"],
@@ -466,7 +477,8 @@ def main(tier: str) -> int:
                 "stimulus has more than one presentation")
     out.exhaustive = True
     out.trusted = ["operation table and projection in harness/c06.py", "TLC"]
-    out.assumptions = ["order dependence, if any, shows up with <= 4 stored entries (all n! orders enumerated)"]
+    out.assumptions = ["order dependence, if any, shows up with <= 4 stored entries (all n! orders enumerated) or in the large "
+                       "operands of Elementwise_Big (more than 2048 stored entries, three stored orders)"]
     return core.finish(out)
 
 
